@@ -16,4 +16,4 @@ def run(tier):
     progs = gen.c12_scope(tier)
     return run_e2e_property("C12", tier, EXPLANATION, "DESIGN §4 C12",
                             [("e2e-interleavings", progs, "6 pairs of independent computations x order-preserving interleavings")],
-                            contract_modules=["contracts.c08"])
+                            contract_modules=["contracts.c08", "contracts.c13"])
